@@ -135,6 +135,7 @@ Inductive lab :=
 | Drop | Reconn
 | NetFail (b : bool)
 | Stop | Start
+| DirectComplete (r : Z)  (* ClientDispatcher.CompleteRequest called with an arbitrary id *)
 (* internal *)
 | PumpStop | PumpReq | PumpReady | PumpTimer | Deliver | DeliverStop.
 
@@ -176,6 +177,7 @@ Definition step (l : lab) (s : cl) : cl :=
         else set_readyC s2 (readyC s2 + 1)
       else s
   | NetFail b => set_failw s b
+  | DirectComplete r => complete false s r
   | Stop =>
       if started s && negb (closing s) then
         let s1 := emit (set_conn s false) EStop in
@@ -348,6 +350,7 @@ Fixpoint dec_labs (fuel : nat) (l : list Z) : list lab :=
     | 13 :: rest => PumpTimer :: dec_labs f rest
     | 14 :: rest => Deliver :: dec_labs f rest
     | 15 :: rest => DeliverStop :: dec_labs f rest
+    | 16 :: r :: rest => DirectComplete r :: dec_labs f rest
     | _ => []
     end
   end.
